@@ -55,6 +55,8 @@ THEOREMS = [
     # both systems in another Cartesian frame (rotation / axis permutation / reflection of positions and box vectors; cells
     # with their zero entries anywhere, left-handed cells): results are carried along wherever the images are decided
     'C17.normSq_isometry', 'C17.dv_isometry', 'C17.frame_equivariant',
+    # ... and with the three box vectors (and their periodicity flags) listed in another order
+    'C17.dvCell_swap01', 'C17.dvCell_swap12', 'C17.dvCell_reversed', 'C17.rows_reordered',
 ]
 PARTIAL = {
     'matchPQ_pairing': 'the conflict resolution of match_pq is proved for arbitrary lists (one q per p, the winner is the q closest '
@@ -76,10 +78,6 @@ PARTIAL = {
     'stale_reads': 'the real Strain object keeps cached strain/rotation/invariants/Nye when p vectors, theta_max or the system '
                    'change WITHOUT solve_G/clear_properties (by design: solve_G is the documented way to re-solve); the model '
                    'mirrors that (tied), the theorems state coherence only after solve_G, on fresh and on cleared objects',
-    'frame_rows': 'frame_equivariant covers every isometry of the Cartesian frame (positions and box vectors mapped together); listing '
-                  'the three box vectors in another ORDER changes the order in which the loops of dvect visit the candidate images: '
-                  'with a decided (strictly minimal) image the result is the same; that is checked on the real code (oracle '
-                  'rotated:* with reordered box vectors, tie disp / slip in permuted frames), not proved',
     'cutoff_lists': 'that the list atomman builds for a complete-shell cutoff holds exactly the lattice neighbours is property C03; '
                     'the theorems take the list as given.  The cutoff= entry points are searched against an exact integer lattice '
                     'count (10-14 complete shells, up to 368 neighbours per atom and 4e5 pairs; > 4096 atoms)',
@@ -1432,6 +1430,23 @@ def _search_slip_one(ctx, rng, ref, caseseed, it0, it, dyadic):
             fail('slip_vector', f'slip_vector({how}) of atom {k} is {sv[k].tolist() if k >= 0 else sv.shape}, expected '
                  f'{int(across[max(k, 0)])} neighbours across x (own - other half displacement {rel[max(k, 0)].tolist()}) = '
                  f'{(exp_slip if "neighbors" in kw else exp_slip_c)[max(k, 0)].tolist()} ({int(coordn[max(k, 0)])} neighbours in the list)', k)
+    if natural and a == 4.0 and name.split('/')[0] in ('fcc', 'L12') and abs(cut - 3.4) < 1e-9:
+        # the cutoff as a whole number in every spelling (python int, whole-number float, numpy int64 / float32): 3 lies between
+        # the first (2.83) and the second (4.0) shell of this crystal, like the 3.4 used above
+        ctx.stats.case('oracle:cutoff-forms', canon)
+        ref_ = _guard(lambda: am.defect.slip_vector(s0, s1c, cutoff=cut))
+        for cv in (3, 3.0, np.int64(3), np.float32(3.0), np.float64(3.0)):
+            sv = _guard(lambda: am.defect.slip_vector(s0, s1c, cutoff=cv))
+            ddc = _guard(lambda: am.defect.DifferentialDisplacement(s0, s1c, cutoff=cv, reference=0).ddvectors)
+            if isinstance(sv, _Raised) or isinstance(ref_, _Raised) or sv.shape != ref_.shape or not np.array_equal(sv, ref_):
+                fail('cutoff-forms', f'slip_vector(cutoff={cv!r} [{type(cv).__name__}]) {"raised " + sv.text if isinstance(sv, _Raised) else "differs"} '
+                     f'from slip_vector(cutoff={cut}); both cutoffs select the first shell (a = {a})', cutoff_form=repr(cv))
+                break
+            if isinstance(ddc, _Raised) or ddc.shape != exp_dd_c.shape:
+                fail('cutoff-forms', f'DifferentialDisplacement(cutoff={cv!r} [{type(cv).__name__}], reference=0): '
+                     f'{ddc.text if isinstance(ddc, _Raised) else str(len(ddc)) + " pair vectors"}, the first shell has {len(exp_dd_c)} pairs',
+                     cutoff_form=repr(cv))
+                break
     # differential displacement ---------------------------------------------------------------
     for how, kw in (('neighbors=', {'neighbors': nl0}),) + ((('cutoff=', {'cutoff': cut}),) if natural else ()):
         dd = _guard(lambda: am.defect.DifferentialDisplacement(s0, s1 if 'neighbors' in kw else s1c, reference=0, **kw).ddvectors)
